@@ -101,6 +101,15 @@ fn contexts() -> Vec<(String, String)> {
     v.push(("bounded-type-parameter".into(), format!("{}fn gen[U: Tr](u: U) -> int32 {{\n    let zz = u.§;\n    0\n}}\nfn main() {{ () }}\n", PRELUDE)));
     v.push(("unbounded-type-parameter".into(), format!("{}fn gen[U](u: U) -> int32 {{\n    let zz = u.§;\n    0\n}}\nfn main() {{ () }}\n", PRELUDE)));
     v.push(("generic-struct-of-parameter".into(), format!("{}fn gen[U](u: Box[U]) -> int32 {{\n    let zz = u.§;\n    0\n}}\nfn main() {{ () }}\n", PRELUDE)));
+    // an impl whose receiver pattern repeats its type parameter, asked about inside a generic function
+    // whose own parameter has the same name / another name, with the parameter in one slot or in both
+    let two = "struct Two[A, B] { a: A, b: B }\nimpl[T] Two[T, T] { fn same_kind(self: Two[T, T]) -> T { self.a } }\nimpl[T] Two[T, int32] { fn with_int(self: Two[T, int32]) -> int32 { self.b } }\n";
+    for (pn, param) in [("same-name", "T"), ("other-name", "Q")] {
+        for (rn, recv_ty) in [("parameter-and-int", "Two[§, int32]"), ("int-and-parameter", "Two[int32, §]"), ("parameter-twice", "Two[§, §]"), ("parameter-and-vec-of-it", "Two[§, Vec[§]]"), ("int-twice", "Two[int32, int32]")] {
+            let ty = recv_ty.replace('§', param);
+            v.push((format!("repeated-impl-parameter;fn-parameter-{};receiver={}", pn, rn), format!("{}{}fn pick[{}](p: {}, unused: {}) -> int32 {{\n    let zz = p.§;\n    0\n}}\nfn main() {{ () }}\n", PRELUDE, two, param, ty, param)));
+        }
+    }
     v.push(("closure-parameter".into(), format!("{}fn main() {{\n    let c2 = |q: S| {{\n        let zz = q.§;\n        0\n    }};\n    ()\n}}\n", PRELUDE)));
     v.push(("pattern-variable-int".into(), format!("{}fn main() {{\n    let e = B(1);\n    let k = match e {{\n        B(n) => {{\n            let zz = n.§;\n            0\n        }},\n        A => 0,\n    }};\n    ()\n}}\n", PRELUDE)));
     v.push(("pattern-variable-struct".into(), format!("{}fn main() {{\n    let o = Som(mk());\n    let k = match o {{\n        Som(p) => {{\n            let zz = p.§;\n            0\n        }},\n        Non => 0,\n    }};\n    ()\n}}\n", PRELUDE)));
@@ -240,7 +249,7 @@ impl Family for Completions {
         &["C20"]
     }
     fn rule(&self) -> &'static str {
-        "dot completion at `recv.` for 33 receiver expressions in main (locals of struct / struct-with-struct-field / two instances of a generic struct / Ref / Vec / tuple / array / enum / generic enum / int32 / string / dyn / Ref of a generic instance / nested generic instance / closure / unit; fields, tuple projections, call and method-call results, ref_get / vec_get / array_get results, a parenthesised receiver, a literal) + 12 other binding contexts (bounded and unbounded type parameter, generic struct of a parameter, closure parameter, pattern variables, self in an inherent and in a generic method, function parameters of struct and Ref type, a shadowed local, a local redefined later); `Ns::` completion for 10 single-file namespaces (enum, generic enum, struct with / without methods, generic struct, trait, int32, string, the own package, an unknown name) and 9 namespaces of a 4-package project (imported package, its enum / struct / trait, a package only reachable through the import, one of its enums, a package present on disk but not imported, the own package, a prefix of a package name); 8 cursors where the path is not an expression (a parameter type and a let annotation naming the own / an imported package, a pattern naming an enum / a generic enum / an imported enum, a cursor inside a middle segment of a path); oracle: the request returns without panic and every offered item, inserted at the cursor (methods with synthesised arguments, variants with synthesised payloads, types in a parameter position, traits in a bound), type-checks; where arguments cannot be synthesised only resolution errors count. non-trivial = cursors at which at least one item was offered; distinct = distinct (cursor, item)"
+        "dot completion at `recv.` for 10 receivers of a two-parameter generic struct with impls whose pattern repeats the type parameter, inside generic functions whose parameter has the same / another name; for 33 receiver expressions in main (locals of struct / struct-with-struct-field / two instances of a generic struct / Ref / Vec / tuple / array / enum / generic enum / int32 / string / dyn / Ref of a generic instance / nested generic instance / closure / unit; fields, tuple projections, call and method-call results, ref_get / vec_get / array_get results, a parenthesised receiver, a literal) + 12 other binding contexts (bounded and unbounded type parameter, generic struct of a parameter, closure parameter, pattern variables, self in an inherent and in a generic method, function parameters of struct and Ref type, a shadowed local, a local redefined later); `Ns::` completion for 10 single-file namespaces (enum, generic enum, struct with / without methods, generic struct, trait, int32, string, the own package, an unknown name) and 9 namespaces of a 4-package project (imported package, its enum / struct / trait, a package only reachable through the import, one of its enums, a package present on disk but not imported, the own package, a prefix of a package name); 8 cursors where the path is not an expression (a parameter type and a let annotation naming the own / an imported package, a pattern naming an enum / a generic enum / an imported enum, a cursor inside a middle segment of a path); oracle: the request returns without panic and every offered item, inserted at the cursor (methods with synthesised arguments, variants with synthesised payloads, types in a parameter position, traits in a bound), type-checks; where arguments cannot be synthesised only resolution errors count. non-trivial = cursors at which at least one item was offered; distinct = distinct (cursor, item)"
     }
     fn cases(&self, _tier: Tier) -> Box<dyn Iterator<Item = Value> + '_> {
         let mut v = Vec::new();
